@@ -974,6 +974,7 @@ func c06Listener(p *ana.Prog, r *ana.Result, name string, scion bool) {
 	otherVal := false
 	kernStored := false
 	softStores := map[ssa.Instruction]bool{}
+	var otherStores []ssa.Instruction
 	var expand func(ph *ssa.Phi, seen map[*ssa.Phi]bool)
 	expand = func(ph *ssa.Phi, seen map[*ssa.Phi]bool) {
 		if seen[ph] {
@@ -1016,10 +1017,22 @@ func c06Listener(p *ana.Prog, r *ana.Result, name string, scion bool) {
 			if ph, ok := st.Val.(*ssa.Phi); ok && ph.Block().Dominates(st.Block()) {
 				expand(ph, map[*ssa.Phi]bool{})
 			} else {
-				otherVal = true
+				otherStores = append(otherStores, in)
 			}
 		}
 	})
+	// a placeholder value (e.g. the zero time of a failed read) is harmless when the kernel or the
+	// software time replaces it on every path to the call
+	for _, o := range otherStores {
+		s := &ana.Search{Fn: fn, Target: func(in ssa.Instruction) bool { return in == uts[0].(ssa.Instruction) },
+			Stop: func(in ssa.Instruction) bool {
+				st, ok := in.(*ssa.Store)
+				return ok && st.Addr == ssa.Value(txt1) && (softStores[in] || (kern != nil && st.Val == ssa.Value(kern)))
+			}}
+		if found, _ := s.Run(o); found {
+			otherVal = true
+		}
+	}
 	isSoftStore := func(in ssa.Instruction) bool { return softStores[in] }
 	good := ana.FindGate(p, fn, "tx-timestamp-read-ok", func(c ana.Cmp, isCmp bool, _ ssa.Value) (bool, bool) {
 		if !isCmp || (c.Op != token.EQL && c.Op != token.NEQ) {
